@@ -351,6 +351,9 @@ def _probe(ex, ref, fs, facts, cap, rng, cnt):
         rng.shuffle(fin)
         pick.update(fin[:cap // 2])
         every = sorted(pick)
+    if any(s < 1 or s > inst.ns for s, _p, _v in pv):
+        cnt('probe_absent_model_differs_from_spec')
+        return
     res = pin_probe(ex['prob'], pv, every, solver=None)
     cnt('probe_runs')
     cnt('probe_points', len(res))
